@@ -42,10 +42,15 @@ Fixpoint ops_until_write (cfg : chan_cfg) (fuel : nat) (s : rsys) : rsys :=
       end
   end.
 
+(* let the operation consume what is queued — but never perform a Write: writes happen exactly
+   where the log says the implementation wrote *)
+Definition can_consume (s : rsys) : bool :=
+  match s_pc s with Write _ _ _ => false | _ => can_op s end.
+
 Fixpoint drain (cfg : chan_cfg) (fuel : nat) (s : rsys) : rsys :=
   match fuel with
   | O => s
-  | S f => if can_op s then drain cfg f (step rfeed cfg s Op) else s
+  | S f => if can_consume s then drain cfg f (step rfeed cfg s Op) else s
   end.
 
 Definition fuel_of (s : rsys) : nat := (length (s_queue s) + 64)%nat.
@@ -145,13 +150,23 @@ Fixpoint split_at_loss (log : list lev) (acc : list lev) : option (list lev * le
   | e :: t => split_at_loss t (e :: acc)
   end.
 
-Definition replay_alts (cfg : chan_cfg) (log : list lev) (st : rst) : list rst :=
-  match split_at_loss log [] with
-  | None => [replay cfg log st]
-  | Some (pre, loss, post) =>
-      [ replay cfg (loss :: post) (replay_open cfg pre st true);
-        replay cfg (loss :: post) (replay_open cfg pre st false) ]
+(* branch at every loss event (up to [depth] of them; later ones are applied as logged) *)
+Fixpoint replay_alts_n (depth : nat) (cfg : chan_cfg) (log : list lev) (st : rst) : list rst :=
+  match depth with
+  | O => [replay cfg log st]
+  | S d =>
+      match split_at_loss log [] with
+      | None => [replay cfg log st]
+      | Some (pre, loss, post) =>
+          flat_map (fun drain_first =>
+                      let st1 := replay_open cfg pre st drain_first in
+                      let st2 := with_sys st1 (step rfeed cfg (r_sys st1) (match loss with LEof => Eof | _ => Ioerr end)) in
+                      replay_alts_n d cfg post st2)
+                   [true; false]
+      end
   end.
+
+Definition replay_alts (cfg : chan_cfg) (log : list lev) (st : rst) : list rst := replay_alts_n 4 cfg log st.
 
 Fixpoint logged_writes (log : list lev) : list (bytes * bytes) :=
   match log with
